@@ -154,6 +154,12 @@ def _expr_value_op(f, e):
 _M = [None]
 
 
+def _loop_end_guard(m, g):
+    from vlib.model import ITER_NEXT
+    r = g.root
+    return r[0] == "discr" and r[1][0] == "call" and bool(ITER_NEXT.search(r[1][1])) and discr_variants(m, g) == {"None"}
+
+
 def r3(cx):
     m = cx.m
     _M[0] = m
@@ -176,7 +182,22 @@ def r3(cx):
     cx.ob("C09.R3", "tick:stale", ok_time, "the tick selects messages with update_time < time_millis() - timeout (found %s)" % detail, f.loc())
     cx.ob("C09.R3", "tick:and", conds == ["and"] and len(exprs) == 2, "both conditions are combined with AND and nothing else (found %s with %d expressions)" % (conds, len(exprs)), f.loc())
     cx.note("C09.R3 depends on C10.R3: the memory back end must evaluate AND without the empty-set sentinel")
-    cx.floor("C09.R3", 3)
+    # every tick runs the pass: in the registered tick handler(s) the call is unconditional and on every path to the return
+    callers = [(g, c) for g in m.fns.values() for c in g.calls() if c.q == f.q]
+    if not callers:
+        raise Anchor("with_no_response_messages is never called")
+    for g, c in callers:
+        gs = [x for x in guards_of(m, g, c.b, mode="alias") if not x.neutral and not _loop_end_guard(m, x)]
+        rets = set(g.ret_blocks())
+        bypass = bool(set(g.reach_from([0], avoid=[c.b])) & rets)
+        cx.ob("C09.R3", "tick:every-tick:%s" % short_name(g.q), not gs and not bypass,
+              "`%s` runs the redelivery pass on every tick: the call is under no condition and no path returns without it%s" % (
+                  short_name(g.q), "" if (not gs and not bypass) else " - but %s" % ("it is guarded by %s" % [str(x.root[:3]) for x in gs] if gs else "some path returns before it")), c.loc)
+    # and the handler is what `on_tick` registers
+    reg = any(cc.q.endswith("Emitter::on_tick") or re.search(r"::on_tick(::<.*>)?$", cc.q) for g, _ in callers
+              for pf in [m.fns.get(g.q[: g.q.index("::{closure")])] if "::{closure" in g.q and pf is not None for cc in pf.calls())
+    cx.ob("C09.R3", "tick:registered", reg, "the function that runs the pass is a closure registered with `on_tick`", callers[0][1].loc)
+    cx.floor("C09.R3", 5)
 
 
 def r4(cx):
